@@ -44,6 +44,15 @@ def parseClusterXOp (j : Json) : R XOp := do
     pure (.crash (← parseClusterOp (← fld j "op")) (← nat j "after") (← bool j "lockGone"))
   else pure (.api (← parseClusterOp j))
 
+/-- `{"k": "crash", …, "torn": b}` (absent = false): killed INSIDE that file write — a version file is left empty -/
+def parseClusterTOp (j : Json) : R TOp := do
+  if (← str j "k") == "crash" then
+    let torn ← match j.getObjVal? "torn" with
+      | .ok v => v.getBool?
+      | .error _ => pure false
+    pure (.crash (← parseClusterOp (← fld j "op")) (← nat j "after") (← bool j "lockGone") torn)
+  else pure (.api (← parseClusterOp j))
+
 def jres : Res → Json
   | .ok => jstr "ok"
   | .bool b => jobj [("bool", jbool b)]
@@ -68,6 +77,12 @@ def jdisk (d : Disk) : Json :=
   jobj [("cfg", if d.cfgMissing then Json.null else jcfg d.cfg), ("cfgVer", jnat d.cfgVer), ("js", jjs d.js),
         ("jsVer", jnat d.jsVer), ("marker", jbool d.marker), ("bk", jarr [])]
 
+/-- the files of a system whose version files may be EMPTY (printed as `null`) -/
+def jtdisk (t : TSys) : Json :=
+  let d := t.s.disk
+  jobj [("cfg", if d.cfgMissing then Json.null else jcfg d.cfg), ("cfgVer", if t.cfgVerTorn then Json.null else jnat d.cfgVer),
+        ("js", jjs d.js), ("jsVer", if t.jsVerTorn then Json.null else jnat d.jsVer), ("marker", jbool d.marker), ("bk", jarr [])]
+
 def jsummary (d : Disk) : Json :=
   match readStatus d with
   | .error e => jerr e
@@ -79,15 +94,15 @@ def clusterOps : List (String × (Json → R Json)) := [
     let host ← nat j "host"
     let spec ← (← arr j "jobs").toList.mapM fun p => do pure ((← natList p "blockers"), (← bool p "cancel"))
     let brk ← bool j "breakStale"
-    let ops ← (← arr j "ops").toList.mapM parseClusterXOp
-    let mut s := create host spec brk
-    let init := jdisk s.disk
+    let ops ← (← arr j "ops").toList.mapM parseClusterTOp
+    let mut s := TSys.ofSys (create host spec brk)
+    let init := jtdisk s
     let mut out : List Json := []
     for op in ops do
-      let before := s.disk
-      let (s', r) := stepX s op
+      let before := s.s.disk
+      let (s', r) := stepT s op
       s := s'
-      let base := [("res", match r with | some r => jres r | none => jstr "killed"), ("disk", jdisk s.disk)]
+      let base := [("res", match r with | some r => jres r | none => jstr "killed"), ("disk", jtdisk s)]
       let extra := match op with
         | .api .read => [("summary", jsummary before)]
         | _ => []
